@@ -1,6 +1,8 @@
 (* Props/C20_tree.v — C20, the parent pointers: addIncoming computes exact predecessor lists,
-   validateTree accepts exactly the graphs whose reachable edges are registered once, and what
-   NormalizeBlocks does to that invariant (the AssertionError defects and the repairs).
+   validateTree accepts exactly the graphs whose reachable edges are registered once, and
+   NormalizeBlocks (current code, after the repair 39fa261 of /repo) keeps that invariant; the
+   AssertionError defects of the code before the repair are kept as refutations about the explicitly
+   defined old variants [normalize_pinned], [normalize_startfix], [normalize_noskip] (Comp/SimCheck.v).
    Property theorems only; proofs live in Proofs/IncomingProof.v, Proofs/Normalize*.v. *)
 From Coq Require Import List NArith.
 From PV Require Import Base.Bytes AVM.Syntax AVM.Machine Src.Expr Src.Denote
@@ -51,61 +53,72 @@ Theorem C20_validate_tree_passes_after_add_incoming :
 Proof. exact validate_tree_passes_after_add_incoming. Qed.
 Print Assumptions C20_validate_tree_passes_after_add_incoming.
 
-(* DEFECT 1 (the code as it is): an empty start block in front of a block with two predecessors.
-   Real witness: Seq(While(Txn.fee() < Int(3)).Do(Pop(Int(1))), Approve()) -> AssertionError *)
-Theorem C20_normalize_keeps_tree_valid_refuted :
-  exists g s,
-    wf g /\ inc_exact g s /\ norm_cert g s = true /\ validate_tree g s = true /\
-    (let '(g', s') := normalize g s in validate_tree g' s') = false.
-Proof. exact normalize_keeps_tree_valid_refuted. Qed.
-Print Assumptions C20_normalize_keeps_tree_valid_refuted.
-
-(* DEFECT 2 (survives the one-line repair [start = outgoing[0]]): replaceOutgoing's [elif].
-   Real witness: Seq(Pop(Int(1)), If(Txn.fee() < Int(2), Seq()),
-                     While(Txn.fee() < Int(3)).Do(Pop(Int(1))), Approve()) -> AssertionError *)
-Theorem C20_normalize_fixed_keeps_tree_valid_refuted :
-  exists g s,
-    wf g /\ inc_exact g s /\ norm_cert g s = true /\ validate_tree g s = true /\
-    (let '(g', s') := normalize_fixed g s in validate_tree g' s') = false /\
-    (let '(g', s') := normalize g s in validate_tree g' s') = false.
-Proof. exact normalize_fixed_keeps_tree_valid_refuted. Qed.
-Print Assumptions C20_normalize_fixed_keeps_tree_valid_refuted.
-
-(* with both repairs only graphs with an empty block that is its own successor remain *)
-Theorem C20_normalize_fixed2_keeps_tree_valid_refuted :
-  exists g s,
-    wf g /\ inc_exact g s /\ validate_tree g s = true /\
-    (let '(g', s') := normalize_fixed2 g s in validate_tree g' s') = false.
-Proof. exact normalize_fixed2_keeps_tree_valid_refuted. Qed.
-Print Assumptions C20_normalize_fixed2_keeps_tree_valid_refuted.
-
-(* REPAIRED (start = outgoing[0]; replaceOutgoing re-points both branches; an empty block that is
-   its own successor is left alone): validateTree's assertion survives NormalizeBlocks on ALL graphs
-   with complete conditional blocks and duplicate-free incoming lists *)
-Theorem C20_normalize_keeps_tree_valid_fixed :
+(* CURRENT code: validateTree's assertion survives NormalizeBlocks on ALL graphs with complete
+   conditional blocks and duplicate-free incoming lists *)
+Theorem C20_normalize_keeps_tree_valid :
   forall (g : graph) (s : id) (g' : graph) (s' : id),
     wf g -> cond_full g -> (forall x, NoDup (g_inc g x)) ->
     validate_tree g s = true ->
-    normalize_fixed3 g s = (g', s') ->
+    normalize g s = (g', s') ->
     validate_tree g' s' = true.
-Proof. exact normalize_fixed3_keeps_tree_valid. Qed.
-Print Assumptions C20_normalize_keeps_tree_valid_fixed.
+Proof. exact normalize_keeps_tree_valid. Qed.
+Print Assumptions C20_normalize_keeps_tree_valid.
 
 (* the invariant that carries it *)
-Theorem C20_normalize_fixed3_invariant :
+Theorem C20_normalize_invariant :
   forall (g : graph) (s : id) (g' : graph) (s' : id),
     cond_full g -> inc_covers g s -> (forall x, NoDup (g_inc g x)) ->
-    normalize_fixed3 g s = (g', s') ->
+    normalize g s = (g', s') ->
     cond_full g' /\ inc_covers g' s' /\ (forall x, NoDup (g_inc g' x)).
-Proof. exact normalize_fixed3_tinv. Qed.
-Print Assumptions C20_normalize_fixed3_invariant.
+Proof. exact normalize_tinv. Qed.
+Print Assumptions C20_normalize_invariant.
 
-(* the repairs on the witnesses *)
+(* the sequence of compile_one on a freshly lowered graph: addIncoming, validateTree,
+   NormalizeBlocks, validateTree — neither assertion fires *)
+Theorem C20_add_incoming_normalize_tree_valid :
+  forall (g : graph) (s : id) (g' : graph) (s' : id),
+    wf g -> cond_full g -> (forall b, NoDup (g_inc g b)) ->
+    normalize (fst (add_incoming g s)) s = (g', s') ->
+    validate_tree (fst (add_incoming g s)) s = true /\ validate_tree g' s' = true.
+Proof. exact add_incoming_normalize_tree_valid. Qed.
+Print Assumptions C20_add_incoming_normalize_tree_valid.
+
+(* ---- HISTORICAL: the code before the repair ---- *)
+(* DEFECT 1 (pinned code): an empty start block in front of a block with two predecessors.
+   Witness on the pinned tree: Seq(While(Txn.fee() < Int(3)).Do(Pop(Int(1))), Approve()) -> AssertionError *)
+Theorem C20_normalize_pinned_keeps_tree_valid_refuted :
+  exists g s,
+    wf g /\ inc_exact g s /\ norm_cert_pinned g s = true /\ validate_tree g s = true /\
+    (let '(g', s') := normalize_pinned g s in validate_tree g' s') = false.
+Proof. exact normalize_pinned_keeps_tree_valid_refuted. Qed.
+Print Assumptions C20_normalize_pinned_keeps_tree_valid_refuted.
+
+(* DEFECT 2 (pinned code, and pinned code + [start = outgoing[0]] alone): replaceOutgoing's [elif].
+   Witness: Seq(Pop(Int(1)), If(Txn.fee() < Int(2), Seq()),
+                While(Txn.fee() < Int(3)).Do(Pop(Int(1))), Approve()) -> AssertionError *)
+Theorem C20_normalize_startfix_keeps_tree_valid_refuted :
+  exists g s,
+    wf g /\ inc_exact g s /\ norm_cert_pinned g s = true /\ validate_tree g s = true /\
+    (let '(g', s') := normalize_startfix g s in validate_tree g' s') = false /\
+    (let '(g', s') := normalize_pinned g s in validate_tree g' s') = false.
+Proof. exact normalize_startfix_keeps_tree_valid_refuted. Qed.
+Print Assumptions C20_normalize_startfix_keeps_tree_valid_refuted.
+
+(* with those two hunks only, graphs with an empty block that is its own successor still broke the
+   assertion (why the repair has its third hunk; no PyTeal expression lowers to such a graph) *)
+Theorem C20_normalize_noskip_keeps_tree_valid_refuted :
+  exists g s,
+    wf g /\ inc_exact g s /\ validate_tree g s = true /\
+    (let '(g', s') := normalize_noskip g s in validate_tree g' s') = false.
+Proof. exact normalize_noskip_keeps_tree_valid_refuted. Qed.
+Print Assumptions C20_normalize_noskip_keeps_tree_valid_refuted.
+
+(* the partial repairs and the current code on the three witnesses *)
 Theorem C20_repairs_on_witnesses :
-  (let '(g', s') := normalize_fixed (with_incoming g_loop_first 0) 0 in validate_tree g' s') = true /\
-  (let '(g', s') := normalize_fixed2 (with_incoming g_if_empty_then_loop 0) 0 in validate_tree g' s') = true /\
-  (let '(g', s') := normalize_fixed3 (with_incoming g_loop_first 0) 0 in validate_tree g' s') = true /\
-  (let '(g', s') := normalize_fixed3 (with_incoming g_if_empty_then_loop 0) 0 in validate_tree g' s') = true /\
-  (let '(g', s') := normalize_fixed3 (with_incoming g_empty_self_loop 0) 0 in validate_tree g' s') = true.
+  (let '(g', s') := normalize_startfix (with_incoming g_loop_first 0) 0 in validate_tree g' s') = true /\
+  (let '(g', s') := normalize_noskip (with_incoming g_if_empty_then_loop 0) 0 in validate_tree g' s') = true /\
+  (let '(g', s') := normalize (with_incoming g_loop_first 0) 0 in validate_tree g' s') = true /\
+  (let '(g', s') := normalize (with_incoming g_if_empty_then_loop 0) 0 in validate_tree g' s') = true /\
+  (let '(g', s') := normalize (with_incoming g_empty_self_loop 0) 0 in validate_tree g' s') = true.
 Proof. exact repairs_on_witnesses. Qed.
 Print Assumptions C20_repairs_on_witnesses.
